@@ -35,7 +35,7 @@ ASSUMPTIONS = [
 
 SCNS = ["raw-bs2", "raw-bool", "runner", "runner3", "runner-df", "harv-jl-overlap",
         "harv-h5-disjoint", "harv-jl-none", "harv-mem", "samp-pkl",
-        "samp-pkl-none"]
+        "samp-pkl-none", "harv-h5-noext", "harv-h5-lazy"]
 # failures whose corrected retry is also made through the very objects (Crop
 # and its farmer) that saw the failure - a long-lived session
 LIVE = ("incomplete", "garbage", "shortres", "overlong", "conflict", "fault")
@@ -43,8 +43,7 @@ CROPDIR = ".xyz-k"
 
 
 def cases(tier, seed):
-    scns = SCNS if tier == "quick" else SCNS + [
-        "raw-nb4", "harv-h5-noext", "samp-csv"]
+    scns = SCNS if tier == "quick" else SCNS + ["raw-nb4", "samp-csv"]
     for scn in scns:
         for cu, ai, wait, state in itertools.product(
                 (None, True, False), (False, True), (False, True),
